@@ -88,7 +88,7 @@ func TestVerif_C15(t *testing.T) {
 	}
 	defer sim.Close()
 	d := newVerifSDriver(sim, rng)
-	steps := r.N(150, 2000)
+	steps := r.N(150, 1500)
 	maxBatch := r.N(24, 255)
 	var finalizedPool []*common.VersionedTransaction
 	otherTopoTs := map[crypto.Hash]uint64{}
